@@ -100,7 +100,7 @@ def evaluate(case, stt):
         elif ctx_any:
             # for the inputs C02 does not look at: unmarked text must at least be ExplorerScript the compiler takes,
             # unless the input is one of C02's known findings (undefined labels ...)
-            known = (gen_ssb.foreign_targets_not_locally_reachable(c) or gen_ssb.inexpressible_case_ops(c) or gen_ssb.case_jumps_backward_or_into_chain(c)
+            known = (gen_ssb.foreign_targets_not_locally_reachable(c) or gen_ssb.inexpressible_case_ops(c) or gen_ssb.case_jumps_backward_or_into_chain(c) or gen_ssb.case_op_is_jump_target(c)
                      or gen_ssb.degenerate_branch_in_loop(c) or gen_ssb.call_on_cycle(c) or gen_ssb.call_target_only_reachable_by_call(c))
             _, exc = call_guard(lambda: compile_text(text))
             if exc is not None and not known:
